@@ -157,6 +157,16 @@ Proof.
 Qed.
 
 (** a full, sorted buffer: insert-and-truncate = "replace the worst if the new point beats it" *)
+Lemma ins_best_cons top x y l :
+  ins_best top x (y :: l) = if better top x y then x :: y :: l else y :: ins_best top x l.
+Proof. reflexivity. Qed.
+
+Lemma removelast_length (l : list pt) : l <> [] -> S (length (removelast l)) = length l.
+Proof.
+  intro H. pose proof (app_removelast_last pt0 H) as A.
+  apply (f_equal (@length pt)) in A. rewrite app_length in A. cbn [length] in A. lia.
+Qed.
+
 Lemma firstn_ins_full top x st : forall n,
   length st = n -> (1 <= n)%nat -> sorted_b top st ->
   firstn n (ins_best top x st) =
@@ -168,20 +178,21 @@ Proof.
   - destruct n as [|n]; [lia|]. cbn [length] in Hlen.
     change (last (y :: z :: r) pt0) with (last (z :: r) pt0).
     change (removelast (y :: z :: r)) with (y :: removelast (z :: r)).
-    cbn [ins_best]. destruct (better top x y) eqn:E.
+    rewrite (ins_best_cons top x y (z :: r)), (ins_best_cons top x y (removelast (z :: r))).
+    destruct (better top x y) eqn:E.
     + pose proof (sorted_b_last top y (z :: r) Hs) as HL.
       change (last (y :: z :: r) pt0) with (last (z :: r) pt0) in HL.
       rewrite (better_negtrans top x y _ E HL).
-      cbn [firstn]. f_equal.
-      replace n with (length (y :: removelast (z :: r)) + 0)%nat at 1.
-      2:{ cbn [length]. pose proof (app_removelast_last pt0 (l := z :: r) ltac:(discriminate)) as A.
-          apply (f_equal (@length pt)) in A. rewrite app_length in A. cbn [length] in A, Hlen. lia. }
-      change (y :: z :: r) with ((y :: removelast (z :: r)) ++ [last (z :: r) pt0]) at 1 || idtac.
+      rewrite firstn_cons. f_equal.
       assert (A : y :: z :: r = (y :: removelast (z :: r)) ++ [last (z :: r) pt0]).
       { cbn [app]. f_equal. apply app_removelast_last. discriminate. }
-      rewrite A at 1. rewrite firstn_app_2. cbn [firstn]. rewrite app_nil_r. reflexivity.
-    + cbn [firstn]. inversion Hs as [|? ? Hr Hy]; subst.
-      rewrite (IH n) by (cbn [length] in *; lia || assumption).
+      rewrite A.
+      assert (L : n = length (y :: removelast (z :: r))).
+      { cbn [length]. pose proof (removelast_length (z :: r) ltac:(discriminate)) as R.
+        cbn [length] in R. lia. }
+      rewrite L at 1. rewrite firstn_app, Nat.sub_diag, firstn_all. cbn [firstn]. apply app_nil_r.
+    + rewrite firstn_cons. inversion Hs as [|? ? Hr Hy]; subst.
+      rewrite (IH n); [| cbn [length] in *; lia | cbn [length] in *; lia | assumption].
       destruct (better top x (last (z :: r) pt0)); reflexivity.
 Qed.
 
